@@ -198,7 +198,17 @@ def r3_grow(ck, F, R="C08-R3"):
     for s, c, t in nb:
         c_ = checked(rb.arg_exprs(s)[0])
         ok = bool(c_ and c_[0] == "Mul" and const_val(c_[2]) == 2 and is_call(c_[1], "::len") and is_self_field(c_[1].strip().a[0], "buffer"))
-        ck.ob(R, "doubling", ok, f"new buffer size = {rb.arg_exprs(s)[0].show()} (exactly twice the current buffer)", rb, s)
+        how = "exactly twice the current buffer"
+        if not ok and rb.arg_exprs(s)[0].strip().k == "arg":
+            # the size is a parameter: every caller must pass the current length doubled a whole number of times
+            # (a variable that starts as buffer.len() and is only ever multiplied by two)
+            pi = rb.arg_exprs(s)[0].strip().x["i"]
+            sites = [(cb, g) for cb in F.user_bodies() for g, c2, t2 in calls(cb, A("entries_realloc"))]
+            ok = bool(sites)
+            for cb, g in sites:
+                ok = ok and _doubled_length(cb, cb.arg_exprs(g)[pi - 1], g)
+            how = "the current length doubled one or more times, computed by the caller"
+        ck.ob(R, "doubling", ok, f"new buffer size = {rb.arg_exprs(s)[0].show()} ({how})", rb, s)
     for b, site, x in st:
         e = b._expr_of_def((site, "assign", x["rv"]))
         ck.ob(R, "new-buffer-installed", nb and e.strip().k == "call" and e.strip().x.get("site") == nb[0][0], "the doubled buffer replaces the old one", b, site)
@@ -208,11 +218,13 @@ def r3_grow(ck, F, R="C08-R3"):
     fs = calls(ei, A("entries_fits"))
     rc = calls(ei, A("entries_realloc"))
     ok = False
-    if len(fs) == 1 and len(rc) == 1:
-        ed = bool_edges(ei, value_site=fs[0][0])
-        ok = ed is not None and ei.dominates(ed[2], rc[0][0].bb) and not ei.dominates(ed[1], rc[0][0].bb)
-        a = ei.arg_exprs(fs[0][0])
-        ok = ok and is_arg(a[0], "self") and is_arg(a[1], "key") and is_arg(a[2], "data")
+    if fs and len(rc) == 1:
+        for f_ in fs:
+            ed = bool_edges(ei, value_site=f_[0])
+            a = ei.arg_exprs(f_[0])
+            if ed is not None and ei.dominates(ed[2], rc[0][0].bb) and not ei.dominates(ed[1], rc[0][0].bb) and is_arg(a[0], "self") and is_arg(a[1], "key") and is_arg(a[2], "data"):
+                ok = True
+        fs = [f_ for f_ in fs if ei.dominates(f_[0], rc[0][0])][:1] or fs[:1]
     ck.ob(R, "grow-only-when-not-fitting", ok, "Entries::insert reallocates only on the `!fits(key, data)` edge", ei)
     rec = calls(ei, A("entries_insert"))
     ok = len(rec) == 1 and rc and ei.dominates(rc[0][0], rec[0][0])
@@ -229,6 +241,13 @@ def r3_grow(ck, F, R="C08-R3"):
         escapes = rets & reachable_without(ei, banned_blocks={fbb}, start=rbb) if rbb != fbb else rets
         ok = same_loop and not escapes
         how = "the growth is inside the loop that re-tests fits(self, key, data); no path from it reaches the end of insert without that test"
+    if not ok and not rec and len(rc) == 1:
+        # single growth straight to a size that fits: the linear analysis proves, on the path through the
+        # reallocation, that the entry fits (remaining >= its size and one aligned bound slot is free)
+        from . import bufarith
+        okf, whyf = bufarith.fits_after_growth(F)
+        if okf:
+            ok, how = True, whyf
     ck.ob(R, "retry-same-entry", ok, "after growing, the same (key, data) is inserted again — " + how, ei)
     for b, s, rv in aggregates(F, ent):
         e = agg_field_expr(b, s, rv, "buffer")
@@ -331,3 +350,35 @@ def r6_plumb(ck, F, R="C08-R6"):
     mf = mutated_fields(F, so)
     cfg_fields = {"allow_realloc", "dump_threshold", "max_nb_chunks"}
     ck.ob(R, "budget-settings-immutable", not (cfg_fields & set(mf)), f"Sorter's budget settings are never modified after build ({sorted(cfg_fields & set(mf))})", config=F.config)
+
+
+def _doubled_length(b, e, at):
+    """e (evaluated at site `at` of body b) is self.buffer.len() multiplied by two a whole number of times: either
+    `len * 2`, or a variable whose definitions are `buffer.len()` and `itself * 2` (checked) only"""
+    c_ = checked(e)
+    if c_ and c_[0] == "Mul" and const_val(c_[2]) == 2 and is_call(c_[1], "::len") and is_self_field(c_[1].strip().a[0], "buffer"):
+        return True
+    s = e.strip()
+    alts = flat_alts(s) if s.k == "phi" else [s]
+    base = [x for x in alts if is_call(x, "::len") and is_self_field(x.strip().a[0], "buffer")]
+    rest = [x for x in alts if x not in base]
+    if len(base) != 1 or not rest:
+        return False
+    for x in rest:
+        y = x.strip()
+        inner = None
+        if y.k == "call" and y.x["path"].rsplit("::", 1)[-1] in ("expect", "unwrap") and y.a and y.a[0].strip().k == "call" and y.a[0].strip().x["path"].endswith("checked_mul"):
+            inner = y.a[0].strip()
+            if const_val(inner.a[1]) != 2:
+                return False
+            src = inner.a[0]
+        else:
+            c2 = checked(y)
+            if not (c2 and c2[0] == "Mul" and const_val(c2[2]) == 2):
+                return False
+            src = c2[1]
+        # the multiplied value is the variable itself (a cycle) or the base length
+        ok = any(w.k == "var" for w in src.walk()) or (is_call(src, "::len") and is_self_field(src.strip().a[0], "buffer")) or src.strip().k == "phi"
+        if not ok:
+            return False
+    return True
